@@ -21,6 +21,7 @@ over-length tours are accepted.  Hence the full soundness statement is FALSE of 
 import Rl4co.Env.Op
 import Rl4co.Spec.Op
 import Rl4co.Proofs.OpShared
+import Rl4co.Proofs.OpGenerated
 
 namespace Rl4co.Op
 open Rl4co.Spec.Op Rl4co.Prize
@@ -242,5 +243,69 @@ theorem check_sound_precomp (i : Inst) (U rho tol : Int) (hd00 : i.D 0 0 = 0)
 
 /-- Non-vacuity: the real checker bounds of `cexCheck` (unit 2^-26) are `L + 1e-5` up to one unit. -/
 example : CheckPrecomp cexCheck 67108864 1 := (checkPrecomp_iff _ _ _).mp (by decide)
+
+/-! ### the repaired checker, and exactly which lists the shipped one accepts wrongly -/
+
+/-- the checker with the depot prepended to the gathered locations (as the CVRP / PCTSP rewards do): it
+measures the tour depot → listed nodes → depot for EVERY list -/
+def checkRepaired (i : Inst) (as : List Nat) : Bool :=
+  as.all (fun a => decide (a ≤ i.n)) &&
+  adjOk (sortNat as) &&
+  (List.range (i.n + 1)).all (fun j => Params.opCheckLenCmp.eval (rollLen i.D (0 :: as)) (i.cbound j))
+
+theorem rollLen_depot_cons (i : Inst) (as : List Nat) : rollLen i.D (0 :: as) = tourLen i as := by
+  rw [rollLen_eq_closedLen]; rfl
+
+/-- **C06 (OP), repaired clause**: with the depot prepended the checker is exact for ALL lists (closed at the
+depot or not): accepted ⇔ feasible within the tolerance. -/
+theorem checkRepaired_iff (i : Inst) (tol : Int) (hcb : ∀ j, j ≤ i.n → i.cbound j = i.L + tol) (as : List Nat) :
+    checkRepaired i as = true ↔ FeasibleWithin tol i as := by
+  simp only [checkRepaired, Bool.and_eq_true, List.all_eq_true, decide_eq_true_eq, adjOk_sort_iff,
+    List.mem_range, Params.opCheckLenCmp, Cmp.eval, rollLen_depot_cons]
+  constructor
+  · rintro ⟨⟨h1, h2⟩, h3⟩
+    exact ⟨h1, fun j hj _ => h2 j hj, by have := h3 0 (by omega); rw [hcb 0 (by omega)] at this; exact this⟩
+  · rintro ⟨h1, h2, h3⟩
+    refine ⟨⟨h1, ?_⟩, fun j hj => by rw [hcb j (by omega)]; exact h3⟩
+    intro j hj
+    by_cases hjn : j ≤ i.n
+    · exact h2 j hj hjn
+    · have : j ∉ as := fun hm => hjn (h1 j hm)
+      rw [List.count_eq_zero_of_not_mem this]; omega
+
+/-- **C06 (OP), the wrongly accepted set**: the shipped checker accepts a list that is NOT feasible within the
+tolerance exactly when the list is in range, repeats no customer, its cycle through the listed nodes fits the
+bound, and the tour through the depot does not. -/
+theorem wrongly_accepted_iff (i : Inst) (tol : Int) (hcb : ∀ j, j ≤ i.n → i.cbound j = i.L + tol) (as : List Nat) :
+    (check i as = true ∧ ¬ FeasibleWithin tol i as) ↔
+      ((∀ a ∈ as, a ≤ i.n) ∧ (∀ j, 1 ≤ j → as.count j ≤ 1) ∧ closedLen i.D as ≤ i.L + tol ∧ i.L + tol < tourLen i as) := by
+  rw [check_iff_cycle]
+  constructor
+  · rintro ⟨⟨h1, h2, h3⟩, hn⟩
+    have hc := h3 0 (by omega)
+    rw [hcb 0 (by omega)] at hc
+    refine ⟨h1, h2, hc, ?_⟩
+    apply Classical.byContradiction
+    intro hlt
+    exact hn ⟨h1, fun j hj _ => h2 j hj, by omega⟩
+  · rintro ⟨h1, h2, h3, h4⟩
+    refine ⟨⟨h1, h2, fun j hj => by rw [hcb j hj]; exact h3⟩, ?_⟩
+    intro hf
+    have := hf.length
+    omega
+
+/-- the two checkers agree on lists closed at the depot (in particular on every mask-generated episode) -/
+theorem checkRepaired_eq_of_closed (i : Inst) (hd00 : i.D 0 0 = 0) {as : List Nat} (hc : ClosedAtDepot as) :
+    checkRepaired i as = check i as := by
+  simp only [checkRepaired, check, rollLen_depot_cons, rollLen_eq_tourLen i hd00 hc]
+
+/-- Non-vacuity: the witness of the finding, `[1, 2]` on `cexCheck`, is accepted by the shipped checker and
+rejected by the repaired one. -/
+example : checkRepaired cexCheck [1, 2] = false := by
+  cases h : checkRepaired cexCheck [1, 2] with
+  | false => rfl
+  | true =>
+    have := ((checkRepaired_iff cexCheck 672 (by intro j _; rfl) [1, 2]).mp h).length
+    revert this; decide
 
 end Rl4co.Op
